@@ -275,3 +275,48 @@ package websockets
 //@     do written = written + 1
 //@   loop 1
 //@     invariant[C11:writer-progress] written <= taken && serverConn != nil && clientMessages != nil && ctx != nil
+
+// ---- shim-script injection (C14) ----
+// Only responses whose Content-Type (lower-cased) contains "html" are touched. For those, exactly one read of up to
+// 1024 bytes is taken from the body; the new body is (that prefix with the script inserted once, right after the first
+// "<head>") followed by the rest of the original body; closing it closes the original; only Content-Length is removed.
+//@ pure shimHTML(h ref) bool = contains(lower(hget(h, "Content-Type")), "html")
+//@ func ShimBody$1 props(C14,C07)
+//@   requires resp != nil ==> (resp.Body != nil ==> resp.Header != nil)
+//@   ghost reads int = 0
+//@   ghost pfx string
+//@   ghost replaced bool = false
+//@   ghost pr *strings.Reader = nil
+//@   ghost mr ref = nil
+//@   call (io.Reader).Read
+//@     assert[C14:one-read-of-the-original-body] reads == 0 && arg0 == old(resp.Body) && shimHTML(resp.Header) && len(arg1) == 1024 && !allocated0(arg1)
+//@     do reads = reads + 1
+//@   call strings.Replace
+//@     assert[C14:script-once-right-after-the-first-head] reads == 1 && !replaced && arg0 == string(buf[0:count]) && arg1 == "<head>" && arg2 == "<head>" + shimCode && arg3 == 1
+//@     do pfx = ret0
+//@     do replaced = true
+//@   call strings.NewReader
+//@     assert[C14:prefix-reader-holds-the-spliced-prefix] replaced && arg0 == pfx
+//@     do pr = ret0
+//@   call io.MultiReader
+//@     assert[C14:spliced-prefix-then-rest-of-the-original] len(arg0) == 2 && arg0[0] == box(pr) && arg0[1] == old(resp.Body)
+//@     do mr = ret0
+//@   ensures[C14:non-html-body-and-headers-untouched] resp != nil && old(resp.Body) != nil && !shimHTML(old(resp.Header)) ==> r0 == nil && reads == 0 && resp.Body == old(resp.Body) && resp.Header == old(resp.Header) && forall_str(k, (in(k, resp.Header) <==> old(in(k, resp.Header))) && resp.Header[k] == old(resp.Header[k]))
+//@   ensures[C14:html-body-is-spliced-prefix-plus-rest] resp != nil && old(resp.Body) != nil && shimHTML(old(resp.Header)) && r0 == nil ==> reads == 1 && typeis(resp.Body, "*shimmedBody") && cast(unboxRef(resp.Body, "*shimmedBody"), "*shimmedBody").reader == mr && mr != nil && cast(unboxRef(resp.Body, "*shimmedBody"), "*shimmedBody").closer == old(resp.Body)
+//@   ensures[C14:only-content-length-dropped] resp != nil && old(resp.Body) != nil ==> resp.Header == old(resp.Header) && forall_str(k, k != "Content-Length" ==> (in(k, resp.Header) <==> old(in(k, resp.Header))) && resp.Header[k] == old(resp.Header[k]))
+//@   ensures[C14:read-error-leaves-body-in-place] r0 != nil ==> resp.Body == old(resp.Body)
+
+//@ func (*shimmedBody).Read props(C14,C07)
+//@   requires sb != nil && sb.reader != nil
+//@   ghost calls int = 0
+//@   call (io.Reader).Read
+//@     assert[C14:read-delegates-to-the-spliced-reader] calls == 0 && arg0 == sb.reader && arg1 == p
+//@     do calls = calls + 1
+//@   ensures[C14:read-once] calls == 1
+//@ func (*shimmedBody).Close props(C14,C07)
+//@   requires sb != nil && sb.closer != nil
+//@   ghost calls int = 0
+//@   call (io.Closer).Close
+//@     assert[C14:close-closes-the-original-body] calls == 0 && arg0 == sb.closer
+//@     do calls = calls + 1
+//@   ensures[C14:close-once] calls == 1
